@@ -153,6 +153,12 @@ pub(crate) struct CoreInner {
 	/// two of them doing so at once would write the same SST file twice (truncating a
 	/// table the manifest already names) and install it twice.
 	flush_lock: Mutex<()>,
+
+	/// WAL segment holding the only record of each batch that is logged but not yet
+	/// applied to a memtable (starting sequence number -> segment). A flush must not
+	/// record a `log_number` above such a segment: recovery ignores the segments below
+	/// `log_number`, and the batch is in no memtable that a later flush would write.
+	pub(crate) unapplied: parking_lot::Mutex<std::collections::BTreeMap<u64, u64>>,
 }
 
 impl CoreInner {
@@ -223,6 +229,7 @@ impl CoreInner {
 			error_handler: Arc::new(BackgroundErrorHandler::new()),
 			visible_seq_num,
 			flush_lock: Mutex::new(()),
+			unapplied: parking_lot::Mutex::new(std::collections::BTreeMap::new()),
 		})
 	}
 
@@ -281,7 +288,20 @@ impl CoreInner {
 		table_id: u64,
 		wal_number: u64,
 	) -> Result<Arc<Table>> {
-		self.flush_immutable_to_sst_with_log_number(memtable, table_id, wal_number + 1)
+		let log_number = self.cap_log_number(wal_number + 1);
+		self.flush_immutable_to_sst_with_log_number(memtable, table_id, log_number)
+	}
+
+	/// The `log_number` a flush may record (and below which WAL segments may be deleted):
+	/// never above a segment that holds the only record of a batch which is logged but
+	/// not yet applied. Such a batch is re-logged in the current segment before it is
+	/// applied to a memtable paired with a later segment (`relog_if_rotated`), but until
+	/// then the older segment must stay replayable.
+	fn cap_log_number(&self, log_number: u64) -> u64 {
+		match self.unapplied.lock().values().min() {
+			Some(&segment) => log_number.min(segment),
+			None => log_number,
+		}
 	}
 
 	/// Same as `flush_immutable_to_sst`, recording `log_number` (WAL segments below it
@@ -502,16 +522,18 @@ impl CoreInner {
 			entry.wal_number
 		);
 
-		// Flush to SST (this also removes from immutable queue and updates manifest)
-		let table = self.flush_immutable_to_sst(
+		// Flush to SST (this also removes from immutable queue and updates manifest).
+		// The segments below the recorded log number, and only those, are deleted below.
+		let log_number = self.cap_log_number(entry.wal_number + 1);
+		let table = self.flush_immutable_to_sst_with_log_number(
 			Arc::clone(&entry.memtable),
 			entry.table_id,
-			entry.wal_number,
+			log_number,
 		)?;
 
 		// Schedule async WAL cleanup
 		let wal_dir = self.wal.read().get_dir_path().to_path_buf();
-		let min_wal_to_keep = entry.wal_number + 1;
+		let min_wal_to_keep = log_number;
 
 		tokio::spawn(async move {
 			match cleanup_old_segments(&wal_dir, min_wal_to_keep) {
@@ -935,9 +957,6 @@ struct LsmCommitEnv {
 	/// Manages background tasks like flushing and compaction
 	task_manager: Option<Arc<TaskManager>>,
 
-	/// WAL segment that received each batch still between `write` and `apply`
-	/// (keyed by the batch's starting sequence number).
-	batch_wal: parking_lot::Mutex<std::collections::HashMap<u64, u64>>,
 }
 
 impl LsmCommitEnv {
@@ -946,7 +965,6 @@ impl LsmCommitEnv {
 		Ok(Self {
 			core,
 			task_manager: Some(task_manager),
-			batch_wal: parking_lot::Mutex::new(std::collections::HashMap::new()),
 		})
 	}
 }
@@ -1017,8 +1035,10 @@ impl CommitEnv for LsmCommitEnv {
 			wal_guard.sync()?;
 		}
 		let wal_number = wal_guard.get_active_log_number();
+		// Recorded while the WAL lock is still held: the WAL cannot be rotated, so no flush
+		// can pass this segment, before the entry is there (see `CoreInner::unapplied`).
+		self.core.unapplied.lock().insert(seq_num, wal_number);
 		drop(wal_guard);
-		self.batch_wal.lock().insert(seq_num, wal_number);
 
 		Ok(processed_batch)
 	}
@@ -1027,7 +1047,15 @@ impl CommitEnv for LsmCommitEnv {
 	fn apply(&self, batch: &Batch) -> Result<()> {
 		// The WAL segment holding this batch's record (None for callers that did not go
 		// through `write`).
-		let written_to = self.batch_wal.lock().remove(&batch.starting_seq_num);
+		let written_to = self.core.unapplied.lock().get(&batch.starting_seq_num).copied();
+		// The segment stays protected until the batch is in a memtable (or has failed).
+		struct Applied<'a>(&'a CoreInner, u64);
+		impl Drop for Applied<'_> {
+			fn drop(&mut self) {
+				self.0.unapplied.lock().remove(&self.1);
+			}
+		}
+		let _applied = Applied(&self.core, batch.starting_seq_num);
 
 		// Try to add to current memtable
 		let result = {
